@@ -239,12 +239,12 @@ class CodeGenerator(nunavut._generators.AbstractGenerator):
 
     def get_templates(self, omit_serialization_support: bool = False) -> typing.Iterable[pathlib.Path]:
         """
-        Enumerate all templates found in the templates path.
-        :data:`~TEMPLATE_SUFFIX` as the suffix for the filename.
+        Enumerate all files found in the templates path: the templates (:data:`~TEMPLATE_SUFFIX` as the suffix for the
+        filename) and every other file there, which a template may include.
 
-        :return: A list of paths to all templates found by this Generator object.
+        :return: A list of paths to all files the templates of this Generator object can read.
         """
-        return self._dsdl_template_loader.get_templates()
+        return self._dsdl_template_loader.get_template_inputs()
 
     @abc.abstractmethod
     def generate_all(
